@@ -454,6 +454,7 @@ int flatcc_builder_custom_reset(flatcc_builder_t *B, int set_defaults, int reduc
     B->limit_level = 0;
     B->ds_offset = 0;
     B->ds_limit = 0;
+    B->ds_first = 0;
     B->nest_count = 0;
     B->nest_id = 0;
     /* User frames left open by an abandoned operation (e.g. a failed JSON parse). */
